@@ -121,14 +121,26 @@ type fnCtx struct {
 	fuel    bool
 	names   map[types.Object]string
 	used    map[string]bool
-	recvObj types.Object // receiver variable when its fields become parameters
-	fields  []string     // Coq parameter names of the receiver fields read, in order of first use
-	fieldOf map[string]string
+	recvObj types.Object // struct receiver: the fields the function uses become parameters
+	fields  []*fieldVar  // those fields, in order of first use
+	fieldOf map[string]*fieldVar
+	derefs  map[types.Object]bool // pointer-to-integer receiver/parameters: the Coq variable holds the pointee
+	params  map[types.Object]bool // the parameters (slices among them may be written: outputs)
+	outs    []types.Object        // what the function writes through its receiver/parameters, returned after the results
 	readers map[types.Object]bool
 	tmp     int
 	sites   map[ast.Node]int // run-time check sites, numbered in order of first transcription
+	esites  map[ast.Node]int // error return sites, numbered in source order of first transcription
 	results []gtype
 	hasErr  bool
+}
+
+// a field (path) of the struct receiver
+type fieldVar struct {
+	path string // "F" or "F.G"
+	name string // Coq variable
+	t    gtype
+	obj  types.Object // synthetic variable standing for the field
 }
 
 // identifiers the generated code itself uses, Coq keywords and notations
@@ -139,6 +151,7 @@ func init() {
 		return Set Prop SProp Type then using where with do
 		wrap swrap go_not go_shl go_shl_s go_index go_slice_from go_divu go_modu go_divs go_mods
 		go_read_le go_read_be go_iota go_fold_c go_fold_m go_loop ctl Next Break Ret
+		go_slice go_copy go_update go_le_uint go_be_uint go_le_put go_be_put bytes_eqb zrepeat
 		outcome Ok Err Panic Fuel bind of_opt slice zlen nth fold_left combine fst snd inl inr negb andb orb
 		true false tt unit list Z nat bool length fuel le_dec be_dec firstn skipn Empty_set`) {
 		reserved[w] = true
@@ -174,6 +187,14 @@ func (c *fnCtx) newSite(n ast.Node) int {
 	}
 	c.sites[n] = len(c.sites) + 1
 	return c.sites[n]
+}
+
+func (c *fnCtx) errSite(n ast.Node) int {
+	if s, ok := c.esites[n]; ok {
+		return s
+	}
+	c.esites[n] = len(c.esites) + 1
+	return c.esites[n]
 }
 
 func (c *fnCtx) typeOf(e ast.Expr) gtype {
@@ -258,7 +279,13 @@ func (c *fnCtx) expr(e ast.Expr, pr *pre) string {
 			fatal(e.Pos(), "identifier %s is not a variable (%T)", e.Name, obj)
 		}
 		if v.Pkg() != nil && v.Parent() == v.Pkg().Scope() {
+			if g, ok := classify(v.Type()); ok && (g.kind == kBytes || g.kind == kArr) {
+				return c.table(e, v) // a constant byte table used as a value (checked to be read-only)
+			}
 			fatal(e.Pos(), "package-level variable %s used as a value", e.Name)
+		}
+		if c.derefs[obj] {
+			fatal(e.Pos(), "pointer %s used other than as *%s", e.Name, e.Name)
 		}
 		if c.readers[obj] {
 			fatal(e.Pos(), "reader %s used outside binary.Read", e.Name)
@@ -268,8 +295,13 @@ func (c *fnCtx) expr(e ast.Expr, pr *pre) string {
 		}
 		c.typeOf(e)
 		return c.name(obj)
-	case *ast.SelectorExpr:
-		return c.selector(e)
+	case *ast.SelectorExpr, *ast.StarExpr:
+		obj := c.variable(e)
+		if obj == nil {
+			fatal(e.Pos(), "expression of shape %T that is neither <receiver>.<field> nor *<pointer parameter>", e)
+		}
+		c.typeOf(e)
+		return c.name(obj)
 	case *ast.UnaryExpr:
 		t := c.typeOf(e)
 		x := c.expr(e.X, pr)
@@ -298,15 +330,24 @@ func (c *fnCtx) expr(e ast.Expr, pr *pre) string {
 		return c.index(e, pr)
 	case *ast.SliceExpr:
 		bt := c.typeOf(e.X)
-		if bt.kind != kBytes || e.Slice3 || e.High != nil {
-			fatal(e.Pos(), "slice expression: only b[lo:] on a byte slice is supported")
+		if e.Slice3 || (bt.kind != kBytes && bt.kind != kArr) {
+			fatal(e.Pos(), "slice expression other than b[lo:hi] on a byte slice or array")
 		}
 		b := c.expr(e.X, pr)
+		if e.Low == nil && e.High == nil {
+			return b // x[:] has the elements of x
+		}
 		lo := "0"
 		if e.Low != nil {
 			lo = c.expr(e.Low, pr)
 		}
-		return c.bindM(pr, fmt.Sprintf("go_slice_from %d %s %s", c.newSite(e), b, lo))
+		if e.High == nil {
+			return c.bindM(pr, fmt.Sprintf("go_slice_from %d %s %s", c.newSite(e), b, lo))
+		}
+		// Go checks hi against cap(b); the transcription checks it against len(b): an Ok result is
+		// exact, a Panic may be spurious (cap(b) > len(b))
+		hi := c.expr(e.High, pr)
+		return c.bindM(pr, fmt.Sprintf("go_slice %d %s %s %s", c.newSite(e), b, lo, hi))
 	case *ast.CompositeLit:
 		t := c.typeOf(e)
 		if t.kind != kArr {
@@ -328,29 +369,6 @@ func (c *fnCtx) expr(e ast.Expr, pr *pre) string {
 	return ""
 }
 
-// recv.Field for a struct receiver: the field becomes a parameter
-func (c *fnCtx) selector(e *ast.SelectorExpr) string {
-	id, ok := e.X.(*ast.Ident)
-	if !ok || c.recvObj == nil || c.p.info.Uses[id] != c.recvObj {
-		fatal(e.Pos(), "selector expression other than <receiver>.<field>")
-	}
-	sel := c.p.info.Selections[e]
-	if sel == nil || sel.Kind() != types.FieldVal {
-		fatal(e.Pos(), "%s.%s is not a field", id.Name, e.Sel.Name)
-	}
-	t := c.typeOf(e)
-	if t.kind != kInt && t.kind != kBool {
-		fatal(e.Pos(), "receiver field %s of unsupported type", e.Sel.Name)
-	}
-	if n, ok := c.fieldOf[e.Sel.Name]; ok {
-		return n
-	}
-	n := c.fresh(id.Name + "_" + e.Sel.Name)
-	c.fieldOf[e.Sel.Name] = n
-	c.fields = append(c.fields, n)
-	return n
-}
-
 func (c *fnCtx) binary(e *ast.BinaryExpr, pr *pre) string {
 	switch e.Op {
 	case token.LAND, token.LOR:
@@ -358,7 +376,12 @@ func (c *fnCtx) binary(e *ast.BinaryExpr, pr *pre) string {
 		var pb pre
 		b := c.expr(e.Y, &pb)
 		if len(pb.lines) > 0 {
-			fatal(e.Y.Pos(), "right operand of %s contains a run-time check (short-circuit evaluation not transcribed)", e.Op)
+			// the right operand has run-time checks: it is evaluated only when the left one does not decide
+			rhs := "(\n" + indent(pb.String()+"Ok "+b) + ")"
+			if e.Op == token.LAND {
+				return c.bindM(pr, "(if "+a+" then "+rhs+" else Ok false)")
+			}
+			return c.bindM(pr, "(if "+a+" then Ok true else "+rhs+")")
 		}
 		if e.Op == token.LAND {
 			return "(" + a + " && " + b + ")"
@@ -493,6 +516,25 @@ func (c *fnCtx) call(e *ast.CallExpr, pr *pre) string {
 		}
 		fatal(e.Pos(), "conversion outside the supported subset")
 	}
+	// library functions with a fixed rendering
+	if c.pkgCall(e, "bytes", "Equal") != nil && len(e.Args) == 2 {
+		for _, a := range e.Args {
+			if k := c.typeOf(a).kind; k != kBytes {
+				fatal(a.Pos(), "bytes.Equal on something that is not a byte slice")
+			}
+		}
+		a := c.expr(e.Args[0], pr)
+		b := c.expr(e.Args[1], pr)
+		return "(bytes_eqb " + a + " " + b + ")"
+	}
+	if order, name := c.byteOrderCall(e); order != "" {
+		n, ok := map[string]int{"Uint16": 2, "Uint32": 4, "Uint64": 8}[name]
+		if !ok || len(e.Args) != 1 || c.typeOf(e.Args[0]).kind != kBytes {
+			fatal(e.Pos(), "binary.%s.%s in an unsupported position", order, name)
+		}
+		b := c.expr(e.Args[0], pr)
+		return c.bindM(pr, fmt.Sprintf("go_%s_uint %d %d %s", order, c.newSite(e), n, b))
+	}
 	var fobj types.Object
 	var recvArg ast.Expr
 	switch f := unparen(e.Fun).(type) {
@@ -517,6 +559,13 @@ func (c *fnCtx) call(e *ast.CallExpr, pr *pre) string {
 			}
 			return "(zlen " + c.expr(e.Args[0], pr) + ")"
 		}
+		if b.Name() == "make" && len(e.Args) == 2 && c.typeOf(e).kind == kBytes {
+			v := c.constOf(e.Args[1])
+			if v == nil || constant.Sign(constant.ToInt(v)) < 0 {
+				fatal(e.Pos(), "make([]byte, n) with a length that is not a non-negative constant")
+			}
+			return "(zrepeat 0 " + constString(v, e.Pos()) + ")"
+		}
 		fatal(e.Pos(), "builtin %s is outside the supported subset", b.Name())
 	}
 	fn, ok := fobj.(*types.Func)
@@ -527,15 +576,29 @@ func (c *fnCtx) call(e *ast.CallExpr, pr *pre) string {
 	if tr == nil {
 		fatal(e.Pos(), "call of %s, which is not whitelisted (or is whitelisted after its caller)", fn.FullName())
 	}
-	if tr.recvFlds {
-		fatal(e.Pos(), "call of a method whose receiver fields were turned into parameters")
+	if tr.nouts > 0 {
+		fatal(e.Pos(), "call of %s, which writes through its receiver or parameters", fn.FullName())
 	}
 	var args []string
 	if tr.fuel {
 		c.fuel = true
 		args = append(args, "fuel")
 	}
-	if recvArg != nil {
+	if tr.recvFlds {
+		// the callee takes the fields of its struct receiver as parameters: here the receiver must be
+		// (a field of) this function's own struct receiver
+		base, ok := c.fieldPath(recvArg)
+		if recvArg == nil || !ok {
+			fatal(e.Pos(), "call of a method with a struct receiver on something that is not a field of the receiver")
+		}
+		for _, f := range tr.fields {
+			path := f.path
+			if base != "" {
+				path = base + "." + f.path
+			}
+			args = append(args, c.fieldByPath(path, f.t).name)
+		}
+	} else if recvArg != nil {
 		args = append(args, c.expr(recvArg, pr))
 	}
 	for _, a := range e.Args {
@@ -715,6 +778,13 @@ func tableUseIsRead(f *ast.File, x *ast.Ident) bool {
 	case *ast.CallExpr:
 		if id, ok := p.Fun.(*ast.Ident); ok && id.Name == "len" {
 			return true
+		}
+		// bytes.Equal / bytes.HasPrefix / bytes.Index only read their arguments
+		if sel, ok := p.Fun.(*ast.SelectorExpr); ok {
+			if id, ok := sel.X.(*ast.Ident); ok && id.Name == "bytes" &&
+				(sel.Sel.Name == "Equal" || sel.Sel.Name == "HasPrefix" || sel.Sel.Name == "Index") {
+				return true
+			}
 		}
 		return false
 	case *ast.RangeStmt:
